@@ -540,6 +540,101 @@ def check_case(case, res=None, witnesses=None):
     return w
 
 
+# ------------------------------------------------------------------------------------------------
+# nested delimiters over the whole SingleListGrader family
+# ------------------------------------------------------------------------------------------------
+DELIMS = [',', ';', '|']
+FRESH_DELIM = '/'
+
+
+def single_list_family():
+    import mitxgraders as M
+    out, todo = [], [M.SingleListGrader]
+    while todo:
+        c = todo.pop(0)
+        if c not in out:
+            out.append(c)
+            todo += sorted(c.__subclasses__(), key=lambda k: k.__name__)
+    return out
+
+
+def build_chain(chain, form='kw'):
+    """chain = [(class, delimiter), ...] outermost first; the innermost level gets a plain item grader where the class
+    needs one.  -> ('ret', object) | ('exc', e) | ('inner', e) when a level below the outermost cannot be built"""
+    import mitxgraders as M
+    obj = None
+    for depth, (cls, d) in enumerate(reversed(chain)):
+        kw = {'delimiter': d}
+        if obj is not None:
+            kw['subgrader'] = obj
+        elif cls is M.SingleListGrader:
+            kw['subgrader'] = M.StringGrader()
+        outer = depth == len(chain) - 1
+        st, new = core.guarded(lambda: cls(**kw)) if (form == 'kw' or not outer) else core.guarded(cls, dict(kw))
+        if st != 'ret':
+            return ('exc' if outer else 'inner'), new
+        obj = new
+    return 'ret', obj
+
+
+def nested_delimiter_case(names, delims, res=None):
+    """One chain of 2-3 nested graders of the SingleListGrader family (every subclass, every level).  Rule: the outermost
+    grader is refused with a configuration error exactly when its delimiter equals the delimiter of a family member
+    below it; otherwise it constructs -- in keyword and dictionary form, and is accepted as a ListGrader subgrader.
+    Chains whose lower levels cannot be built, or that are refused even with a delimiter used nowhere else (the class
+    does not admit that subgrader at all), are not cases of this rule."""
+    import mitxgraders as M
+    fam = {c.__name__: c for c in single_list_family()}
+    chain = [(fam[n], d) for n, d in zip(names, delims)]
+    wits = []
+    ident = ['nested-delimiters', list(names), list(delims)]
+
+    def witness(what):
+        wits.append({'key': 'nested-delimiters:%r:%r' % (names, delims), 'kind': 'nested-delimiters', 'case': ident,
+                     'class': names[0], 'options': ['delimiter', 'subgrader'], 'what': what})
+    ref = build_chain([(chain[0][0], FRESH_DELIM)] + chain[1:])
+    if ref[0] != 'ret':
+        return None
+    text = ' > '.join('%s(delimiter=%r)' % (n, d) for n, d in zip(names, delims))
+    clash = delims[0] in delims[1:]
+    for form in ('kw', 'dict'):
+        st, obj = build_chain(chain, form)
+        if res is not None:
+            res.oracle_evals += 1
+        if clash:
+            if st == 'ret':
+                witness('%s (%s form) was constructed although the outer delimiter is used again by a nested list grader' % (text, form))
+            elif not is_config_or_validation_error(obj):
+                witness('%s (%s form) raised %s, not a configuration or validation error' % (text, form, type(obj).__name__))
+        else:
+            if st != 'ret':
+                witness('%s (%s form) has pairwise different delimiters but raised %s: %s' % (text, form, type(obj).__name__, str(obj)[:120]))
+            elif form == 'kw':
+                st2, lg = core.guarded(lambda: M.ListGrader(subgraders=obj))
+                if st2 != 'ret':
+                    witness('%s is refused as a ListGrader subgrader: %s' % (text, type(lg).__name__))
+    return wits
+
+
+def nested_delimiter_stream(res):
+    import itertools
+    names = [c.__name__ for c in single_list_family()]
+    n = skipped = 0
+    for depth in (2, 3):
+        for ns in itertools.product(names, repeat=depth):
+            for ds in itertools.product(DELIMS, repeat=depth):
+                w = nested_delimiter_case(ns, ds, res)
+                if w is None:
+                    skipped += 1
+                    continue
+                n += 1
+                res.witnesses += w
+                res.nontrivial.add(('nested-delimiters', ns, ds))
+    res.distribution['nested_delimiter_chains'] = n
+    res.distribution['nested_delimiter_chains_not_applicable'] = skipped
+    res.distribution['single_list_family'] = names
+
+
 def registered_defaults_cases(res):
     """registered defaults behave as supplied options that an explicit option overrides (anchor: apply_registered_defaults)"""
     import mitxgraders as M
@@ -600,6 +695,7 @@ def run(ctx):
         registered_defaults_cases(res)
         RG.run_all(ctx, res)
         BH.reuse_histories(ctx, tables()[0], res)
+        nested_delimiter_stream(res)
     compare_with_fresh_probe(fresh, res)
     for wit in res.witnesses:
         outcomes[wit['kind']] = outcomes.get(wit['kind'], 0) + 1
@@ -783,6 +879,9 @@ def _tuplify(x):
 
 def replay(w):
     case = _tuplify(w['case'])
+    if case and case[0] == 'nested-delimiters':
+        found = nested_delimiter_case(tuple(case[1]), tuple(case[2])) or []
+        return bool(found), (found[0]['what'] if found else 'chain %r / %r obeys the nested-delimiter rule' % (case[1], case[2]))
     if case and case[0] == 'reuse':
         found = BH.run_reuse_history(int(case[1]), int(case[2]), tables()[0])
         return bool(found), 'reuse history %r: %s' % (case[1:], found[0]['what'] if found else "the caller's containers are left alone")
